@@ -22,6 +22,7 @@ def gen_cases(rng, tier, ctx):
     cs += gen.constant_cases(rng, tier, op='rt')
     cs += [c for c in gen.limit_cases(rng, tier, op='rt') if c['cfg']['eci'] is None]
     cs += gen.block_border_cases(rng, tier, op='rt')
+    cs += gen.adjacent_capacity_cases(rng, tier, op='rt')
     cs += corpus.encoder_cases('rt')
     cs += [c for c in gen.prefix_cases(rng, tier, op='rt') if c['cfg']['eci'] is None]   # decode_data rejects ECI by design
     return cs
